@@ -118,7 +118,7 @@ def verus_files(S: Sources):
                 && final(total).values@[k].size == old(total).values@[k].size + self.values@[k].size,
         """)])
     canary = list(secs) + [ghost("canaries", CANARIES, kind="lemma")]
-    return [VerusFile("c05_helpers", secs), VerusFile("c05_canary", canary, expect_fail=True)] + time_core_files(S)
+    return [VerusFile("c05_helpers", secs), VerusFile("c05_canary", canary, expect_fail=True)] + time_core_files(S) + store_files(S)
 
 
 def clear_file(S: Sources, prefix: str):
@@ -487,6 +487,78 @@ def time_core_files(S: Sources):
     canary.append(csec)
     canary.append(ghost("canaries", "pub fn canary_time(s: &SampleCollection) requires s.time_samples@.len() == 0 { let r = compute_stats_time(s); assert(false); }", kind="lemma"))
     return [VerusFile("c05_time", secs), VerusFile("c05_time_canary", canary, expect_fail=True)]
+
+
+# --------------------------------------------------------------------------- what is stored as a sample's duration (Verus)
+TIMER = "src/time/timer.rs"
+
+STORE_SPEC = r"""
+pub open spec fn idx(op: AllocOp) -> int { op as int }
+pub open spec fn smul(a: u128, b: int) -> int { if a * b > u128::MAX { u128::MAX as int } else { a * b } }
+pub open spec fn sadd(a: int, b: int) -> int { if a + b > u128::MAX { u128::MAX as int } else { a + b } }
+pub open spec fn ssub(a: int, b: int) -> int { if a < b { 0 } else { a - b } }
+pub open spec fn clamp(a: int, precision: int) -> int { if a == 0 { precision } else { a } }
+pub open spec fn op_count(info: ThreadAllocInfo, op: AllocOp) -> int { info.tallies.values[idx(op)].count as int }
+// the benchmarker's own cost of a sample: the loop overhead per iteration and the tally overhead per allocator operation (saturating)
+pub open spec fn overhead_of(o: TimedOverhead, sample_size: u32, info: ThreadAllocInfo) -> int {
+    sadd(sadd(sadd(smul(o.sample_loop.picos, sample_size as int),
+                   smul(o.tally_alloc.picos, op_count(info, AllocOp::Alloc))),
+              smul(o.tally_dealloc.picos, op_count(info, AllocOp::Dealloc))),
+         smul(o.tally_realloc.picos, op_count(info, AllocOp::Grow) + op_count(info, AllocOp::Shrink)))
+}
+pub open spec fn no_overhead(o: TimedOverhead) -> bool { o.sample_loop.picos == 0 && o.tally_alloc.picos == 0 && o.tally_dealloc.picos == 0 && o.tally_realloc.picos == 0 }
+// the raw sample as far as this code reads it: its allocation info and end - start (RawSample::duration, C11)
+pub struct RawSample { pub alloc_info: ThreadAllocInfo, pub raw: FineDuration }
+impl RawSample {
+    #[verifier::external_body]
+    pub fn duration(&self) -> (r: FineDuration) ensures r == self.raw { unimplemented!() }
+}
+"""
+
+STORE_CLAUSES = r"""
+    ensures
+        // (how the benchmarker's own cost is estimated is not C05's business; what C05's figures rest on:)
+        // a stored duration is never zero (a zero reading counts as one step of the clock) ...
+        timer_precision.picos > 0 ==> r.picos > 0,
+        // ... never more than what was measured (one step of the clock at least) ...
+        r.picos <= clamp(raw_sample.raw.picos as int, timer_precision.picos as int) || r.picos == timer_precision.picos,
+        // ... and exactly the reading when there is no overhead to take off
+        no_overhead(*bench_overheads) ==> r.picos == clamp(raw_sample.raw.picos as int, timer_precision.picos as int),
+"""
+
+
+def store_files(S: Sources):
+    """The duration stored for a sample: TimedOverhead::total_overhead and the closure sample_duration_sub_overhead of
+    bench_loop_threaded (outlined as a function of its parameter and its three captured variables)."""
+    import copy
+    a = S(ALLOC); fd = S(FD); tm = S(TIMER); b = S(BENCH)
+    secs = alloc_type_sections(S)
+    secs.insert(2, code_item(a, a.find_item("enum", "AllocOp"), keep_attrs=("derive",),
+                             subst=[(r"#\[derive\([^\]]*\)\]", "#[derive(Clone, Copy, PartialEq, Eq)]", 1)]))
+    secs.append(code_item(fd, fd.find_item("struct", "FineDuration"), keep_attrs=("derive",),
+                          subst=[(r"#\[derive\([^\]]*\)\]", "#[derive(Clone, Copy, PartialEq, Eq)]", 1)]))
+    secs.append(code_item(tm, tm.find_item("struct", "TimedOverhead")))
+    secs.append(ghost("C05 stored-duration spec and stand-in", STORE_SPEC, kind="trusted"))
+    secs += wrap_impl("impl<T> AllocOpMap<T>", [
+        code_fn(a, a.find_fn("get", impl=r"impl<T> AllocOpMap<T>"), "AllocOpMap::get", ret="r", clauses="ensures *r == self.values[idx(op)],")])
+    secs += wrap_impl("impl FineDuration", [
+        code_fn(fd, fd.find_fn("is_zero", impl=r"impl FineDuration\b"), "FineDuration::is_zero", ret="r", clauses="ensures r == (self.picos == 0),"),
+        code_fn(fd, fd.find_fn("clamp_to", impl=r"impl FineDuration\b"), "FineDuration::clamp_to", ret="r",
+                clauses="ensures r == (if self.picos == 0 { other } else { self }),")])
+    secs += wrap_impl("impl TimedOverhead", [
+        code_fn(tm, tm.find_fn("total_overhead", impl=r"impl TimedOverhead\b"), "TimedOverhead::total_overhead", ret="r",
+                clauses="ensures no_overhead(*self) ==> r.picos == 0,")])
+    f = b.find_fn("bench_loop_threaded", impl=r"impl<'a> BenchContext<'a>")
+    body, line = rsx.region(f, r"let overhead = bench_overheads", r"\} \. clamp_to \( timer_precision \)")
+    core = Section(name="BenchContext::bench_loop_threaded (closure sample_duration_sub_overhead, outlined)", kind="code", origin=f"{BENCH}:{line}",
+                   text="pub fn sample_duration_sub_overhead(raw_sample: &RawSample, bench_overheads: &TimedOverhead, sample_size: u32, timer_precision: FineDuration) -> (r: FineDuration)\n"
+                        + STORE_CLAUSES + "{\n" + body + "\n}")
+    core.dropped = ["closure `|raw_sample: &RawSample| { .. }` bound to sample_duration_sub_overhead outlined as a function of its parameter and its three captured variables "
+                    "(bench_overheads, sample_size, timer_precision)"]
+    secs.append(core)
+    csecs = copy.deepcopy(secs) + [ghost("canaries", "pub fn canary_sub_overhead(r: &RawSample, o: &TimedOverhead, s: u32, p: FineDuration) { let d = sample_duration_sub_overhead(r, o, s, p); assert(false); }\n"
+                                         "pub fn canary_total_overhead(o: &TimedOverhead, s: u32, i: &ThreadAllocInfo) { let d = o.total_overhead(s, i); assert(false); }", kind="lemma")]
+    return [VerusFile("c05_store", secs), VerusFile("c05_store_canary", csecs, expect_fail=True)]
 
 
 KANI_UTIL = r"""
